@@ -53,6 +53,17 @@ pub fn op(st: &mut State, args: &[&str]) -> String {
                 Err(e) => crate::canon::err(&e),
             }
         }
+        // like `act`, but prints only the answer and the size of the tracked set (histories with more than a thousand aircraft)
+        ["actq", h] => {
+            let Ok(b) = hex::decode(h) else { return "BADOP".into() };
+            match Frame::from_bytes(&b) {
+                Ok(f) => {
+                    let added = st.a.action(f, st.rx, st.range);
+                    format!("ADDEDQ {} n={}", if added == Added::Yes { "yes" } else { "no" }, st.a.len())
+                }
+                Err(e) => crate::canon::err(&e),
+            }
+        }
         #[cfg(all(rsadsb_adsb_deku_verif, feature = "std"))]
         ["age", ms] => {
             let Ok(ms) = ms.parse::<u64>() else { return "BADOP".into() };
